@@ -129,6 +129,42 @@ pub(super) fn concat_byte(a: [u8; 3], la: usize, b: [u8; 3], lb: usize, k: usize
     if k < la { a[k] } else { b[k - la] }
 }
 
+// C10: trimming a thread's buffers between slices (VmGreenThread::compact, callable by the embedder after any run_n_steps) must be invisible
+// to the program -- in particular to a resumable string instruction that the slice boundary interrupted: its parked operands, progress
+// indices and partial result are exactly the state the next step continues from (c17_concat_i* / c17_*_i* start from such states).
+vm_harness! {
+    #[kani::unwind(5)]
+    fn c10_compact_keeps_in_flight_state() {
+        let mut t = mk_thread(vec![Instr::ConcatStrings(enc(T, OFF_DEST), enc(T, 0), enc(T, 0)), Instr::Stop], vec![], vec![]);
+        let (ba, bb) = (sym_ascii3(), sym_ascii3());
+        let va = mk_string(&mut t, ba, 2);
+        let vb = mk_string(&mut t, bb, 1);
+        let x = sym_val(ValueTag::Int);
+        t.value_stack.push(x);
+        t.string_operand1 = va;
+        t.string_operand2 = vb;
+        let i1: usize = kani::any();
+        kani::assume(i1 <= 2);
+        t.string_op_index1 = i1;
+        t.string_op_index2 = 0;
+        let byte: u8 = kani::any();
+        let mut builder: Vec<u8> = Vec::with_capacity(6);
+        builder.push(byte);
+        t.concat_string_builder = builder;
+        let (pc0, heap0, objs0, frames0) = (t.pc.0, t.heap_size, t.heap_list.len(), t.call_stack.len());
+        t.compact();
+        assert!(t.string_operand1.0 == va.0 && t.string_operand1.1 == ValueTag::String, "first parked operand survives");
+        assert!(t.string_operand2.0 == vb.0 && t.string_operand2.1 == ValueTag::String, "second parked operand survives");
+        assert!(t.string_op_index1 == i1 && t.string_op_index2 == 0, "progress survives");
+        assert!(t.concat_string_builder.len() == 1 && t.concat_string_builder[0] == byte, "partial result survives");
+        assert!(t.value_stack.len() == 1 && t.value_stack[0].0 == x.0 && t.value_stack[0].1 == x.1, "operand stack unchanged");
+        assert!(t.pc.0 == pc0 && t.heap_size == heap0 && t.heap_list.len() == objs0 && t.call_stack.len() == frames0, "nothing else moves");
+        assert!(t.error.is_none() && !t.done);
+        kani::cover!(i1 == 1, "req: interrupted in the middle of the first operand");
+        std::mem::forget(t);
+    }
+}
+
 macro_rules! concat_harness {
     ($name:ident, $i1:expr, $i2:expr, $dm:expr) => { concat_harness!($name, $i1, $i2, $dm, 9usize, 9usize); };
     ($name:ident, $i1:expr, $i2:expr, $dm:expr, $cla:expr, $clb:expr) => {
